@@ -198,6 +198,8 @@ pub enum CompressionScheme { None, LZ4, ByteGrouping4LZ4 }
 pub uninterp spec fn spec_chunk_ser_len(chunk: Seq<u8>, scheme: Option<CompressionScheme>) -> nat;
 #[verifier::external_body]
 pub fn serialize_chunk<W: Write>(chunk: &[u8], w: &mut W, compression_scheme: Option<CompressionScheme>) -> (r: Result<usize, CasObjectError>)
+    // (this contract is what U-CHUNKSER proves for the real serialize_chunk: same precondition, n == 8 + |payload|, |payload| <= |chunk|)
+    requires chunk@.len() < 16_777_216
     ensures r matches Ok(n) ==> n == spec_chunk_ser_len(chunk@, compression_scheme) && 8 <= n <= 8 + chunk@.len()
         && final(w).wlen() == old(w).wlen() + n,
 { unimplemented!() }
@@ -223,6 +225,10 @@ pub open spec fn bound_before(c: Seq<(MerkleHash, u32)>, i: int) -> int { if i <
 // the unpacked end offsets are non-decreasing and inside `data` (otherwise `&data[a..b]` panics)
 pub open spec fn bounds_ok(c: Seq<(MerkleHash, u32)>, data_len: int) -> bool {
     forall|i: int| 0 <= i < c.len() ==> bound_before(c, i) <= (#[trigger] c[i]).1 <= data_len
+}
+// every chunk is shorter than 16 MiB: the chunk header stores the lengths in 3 bytes (`debug_assert!` in copy_three_byte_num, see U-CHUNKSER)
+pub open spec fn chunks_small(c: Seq<(MerkleHash, u32)>) -> bool {
+    forall|i: int| 0 <= i < c.len() ==> (#[trigger] c[i]).1 - bound_before(c, i) < 16_777_216
 }
 pub open spec fn written_j(data: Seq<u8>, c: Seq<(MerkleHash, u32)>, scheme: Option<CompressionScheme>, j: int) -> nat {
     spec_chunk_ser_len(data.subrange(bound_before(c, j), c[j].1 as int), scheme)
@@ -362,6 +368,8 @@ impl CasObject {
         requires
             // `&data[a..b]` of every chunk is in range
             bounds_ok(chunk_and_boundaries@, data@.len() as int),
+            // every chunk fits the 3-byte length fields of the chunk header (precondition of serialize_chunk)
+            chunks_small(chunk_and_boundaries@),
             // u32 no-overflow preconditions that are genuinely needed:
             //  (1) the physical end offset of every chunk fits u32 (otherwise `total_written_bytes as u32` truncates and the table wraps)
             written_sum(data@, chunk_and_boundaries@, compression_scheme, chunk_and_boundaries@.len() as int) <= u32::MAX,
@@ -388,7 +396,7 @@ impl CasObject {
         let ghost c = chunk_and_boundaries@; let ghost k = c.len(); let ghost hs = cas.info.chunk_hashes@; let ghost us = cas.info.unpacked_chunk_offsets@;
 //@ loop 1
             invariant
-                c == chunk_and_boundaries@, k == c.len(), bounds_ok(c, data@.len() as int),
+                c == chunk_and_boundaries@, k == c.len(), bounds_ok(c, data@.len() as int), chunks_small(c),
                 written_sum(data@, c, compression_scheme, k as int) <= u32::MAX, info_len(k) <= u32::MAX,
                 cas.info.chunk_hashes@ == hs, cas.info.unpacked_chunk_offsets@ == us, cas.info.num_chunks == k,
                 cas.info.cashash == *hash, cas.info.boundaries_version == CAS_OBJECT_FORMAT_BOUNDARIES_VERSION,
